@@ -78,7 +78,7 @@ class C15(Prop):
             "cJSON_free. non-trivial = (doc, pointer) with >= 2 tokens, an escape, or an array index >= 10; distinct by hash")
     ASSUMPTIONS = ["keys are distinct per object (first-match semantics under duplicates is not part of the statement)"]
     REQUIRED_CLASSES = ["valid", "invalid_index", "invalid_escape", "no_leading_slash", "empty_token_on_array", "index>=10", "huge_index",
-                        "construction_pairs", "missing_member", "dash", "case_flip", "ownership_flags_variant", "deep_chain", "single_byte_tokens"]
+                        "construction_pairs", "missing_member", "dash", "case_flip", "ownership_flags_variant", "deep_chain", "single_byte_tokens", "key_is_pointer_memory", "reference_over_standalone_item"]
 
     def budget(self, tier):
         return {"workers": 12, "examples": 1200 if tier == "quick" else 30000}
@@ -90,7 +90,13 @@ class C15(Prop):
             "shape": st.sampled_from(["A", "O", "AO", "OA", "AAO"]),
             "key": st.sampled_from([b"k", b"", b"a/b", b"~", b"0", b"m~n"]),
         })
-        return gens.weighted((59, self.doc_strategy()), (1, deep))
+        # pointer text and a member name that are THE SAME BYTES in memory: a constant key (cJSON_AddItemToObjectCS) that points into
+        # the buffer holding the pointer, at the start of one of its tokens (applications keep paths in constants and reuse them)
+        tok = st.sampled_from([b"a", b"b", b"A", b"~0", b"~1", b"~", b"a~1b", b"m~0n", b"0", b"1", b"", b"-", b"k" * 70, b"~01", b"~2", b"e"])
+        alias = st.fixed_dictionaries({"kind": st.just("alias"), "tokens": st.lists(tok, min_size=1, max_size=4), "where": st.integers(0, 3),
+                                       "first": st.booleans(), "noise": st.lists(st.sampled_from(UKEYS), max_size=3, unique=True),
+                                       "leaf": st.sampled_from([["n"], ["N", 7.0], ["S", b"leaf"], ["A", [["t"]]]])})
+        return gens.weighted((59, self.doc_strategy()), (1, deep), (6, alias))
 
     def doc_strategy(self):
         return st.fixed_dictionaries({
@@ -185,9 +191,87 @@ class C15(Prop):
         if lib.ledger_live() != 0:
             raise Violation("pointer functions left allocations behind", key="leak")
 
+    def run_alias(self, lib, case, stats):
+        toks_raw = case["tokens"]
+        P = b"".join(b"/" + t for t in toks_raw)
+        n = len(toks_raw)
+        w = case["where"] % n
+        j = len(b"".join(b"/" + t for t in toks_raw[:w])) + 1
+        K = P[j:]                                    # the alias member's name: the rest of the pointer text, taken literally
+        decoded = []
+        for t in toks_raw:
+            try:
+                decoded.append(rfc.ptr_tokens(b"/" + t)[0])
+            except rfc.PointerError:
+                decoded.append(None)
+        # the document: the chain of objects the pointer walks, with some other members at every level, and at level w one more
+        # member whose name is K; its value has members named like the remaining tokens, so a wrong turn ends at a wrong node
+        placed = []
+
+        def level(i):
+            if i == n:
+                return case["leaf"]
+            members = []
+            if decoded[i] is not None:
+                members.append([decoded[i], level(i + 1)])
+            for k in case["noise"]:
+                if all(k != m[0] for m in members):
+                    members.append([k, ["N", float(i)]])
+            if i == w and all(K != m[0] for m in members):
+                trap = ["O", [[d, ["S", b"wrong turn"]] for d in dict.fromkeys(x for x in decoded[i + 1:] if x is not None)]]
+                members.insert(0 if case["first"] else len(members), ["ALIAS", trap])
+                placed.append(i)
+            return ["O", members]
+        shape = level(0)
+        arena = printing.Arena(lib)
+        base = arena.put(P)
+
+        def build(node):
+            if node[0] != "O":
+                return printing.build_tree(lib, node)
+            o = lib.cJSON_CreateObject()
+            for k, v in node[1]:
+                if k == "ALIAS":
+                    lib.cJSON_AddItemToObjectCS(o, base + j, build(v))
+                else:
+                    lib.cJSON_AddItemToObject(o, k, build(v))
+            return o
+
+        def plain(node):
+            if node[0] == "O":
+                return ["O", [[K if k == "ALIAS" else k, plain(v)] for k, v in node[1]]]
+            return node
+        jv = plain(shape)
+        has_alias = bool(placed)
+        root = build(shape)
+        try:
+            ptrmap = map_ptrs(lib, root, jv)
+            if has_alias:
+                stats.cls("key_is_pointer_memory")
+            try:
+                want = tuple(rfc.resolve_path(jv, P))
+            except rfc.PointerError:
+                want = None
+            stats.nontriv(["alias", P, w, case["first"], case["noise"]], {"pointer": P, "constant_key_points_at_offset": j, "key": K,
+                                                                            "designates": list(want) if want is not None else None})
+            for how in ("same memory", "copy"):
+                got_ptr = lib.cJSONUtils_GetPointerCaseSensitive(root, ctypes.c_char_p(base) if how == "same memory" else P)
+                stats.inner += 1
+                got = ptrmap.get(got_ptr, "unknown-node") if got_ptr else None
+                if got != want:
+                    raise Violation("GetPointerCaseSensitive(%r) (%s as the constant key %r of a member) returned %s, RFC 6901 designates %s; document %s" % (
+                        P, how, K, got, want, model.emit_text(jv)[:200]), key="lookup:alias")
+        finally:
+            lib.cJSON_Delete(root)
+            arena.close()
+        if lib.ledger_live() != 0:
+            raise Violation("pointer functions left allocations behind", key="leak")
+
     def run_case(self, lib, case, stats):
         if case.get("kind") == "deep":
             return self.run_deep(lib, case, stats)
+        if case.get("kind") == "alias":
+            return self.run_alias(lib, case, stats)
         jv = case["jv"]
         rnd = random.Random(case["rseed"])
         arena = printing.Arena(lib)
@@ -195,6 +279,29 @@ class C15(Prop):
         root = printing.build_flagged(lib, jv, arena, rnd) if flagged else printing.build_tree(lib, jv)
         if flagged:
             stats.cls("ownership_flags_variant")
+        standalone = None
+        if case["rseed"] % 4 == 1 and jv[0] in "AO" and all(k != b"via reference" for k, _ in (jv[1] if jv[0] == "O" else [])):
+            # a reference container over a STAND-ALONE item (never a member of anything, or detached earlier): its nodes are inside the tree too
+            inner = [["N", 1.0], ["A", [["t"], ["n"]]], ["O", [[b"a/b", ["S", b"x"]]]]][case["rseed"] // 4 % 3]
+            standalone = printing.build_tree(lib, inner)
+            as_object = case["rseed"] // 12 % 2 == 1
+            if as_object:
+                tmp = lib.cJSON_CreateObject()
+                lib.cJSON_AddItemToObject(tmp, b"former~name", standalone)
+                lib.cJSON_DetachItemViaPointer(tmp, standalone)
+                lib.cJSON_Delete(tmp)
+                ref = lib.cJSON_CreateObjectReference(standalone)
+                extra = ["O", [[b"former~name", inner]]]
+            else:
+                ref = lib.cJSON_CreateArrayReference(standalone)
+                extra = ["A", [inner]]
+            if jv[0] == "A":
+                lib.cJSON_AddItemToArray(root, ref)
+                jv = ["A", jv[1] + [extra]]
+            else:
+                lib.cJSON_AddItemToObject(root, b"via reference", ref)
+                jv = ["O", jv[1] + [[b"via reference", extra]]]
+            stats.cls("reference_over_standalone_item")
         try:
             ptrmap = map_ptrs(lib, root, jv)
             paths = list(rfc.all_paths(jv))
@@ -233,6 +340,8 @@ class C15(Prop):
             self.check_construction(lib, stats, root, jv, ptrmap, paths, rnd)
         finally:
             lib.cJSON_Delete(root)
+            if standalone:
+                lib.cJSON_Delete(standalone)
             arena.close()
         if lib.ledger_live() != 0:
             raise Violation("pointer functions left allocations behind", key="leak")
